@@ -206,9 +206,17 @@ def run_case(ctx, case, keep=None):
                 duration = None
             else:
                 E = [e for e in E if e[0] < cut - 0.002]
-        ld = loader(path, historical=case['start'], basis=clk.t, factor=factor, lookahead=lookahead, duration=duration)
-        delivered = []          # (round, h, ts, values)
         states = set()
+        base_state = loader.state
+
+        class recording_loader(loader):
+            # observe every state the loader passes through (SWITCHING/EXHAUSTED are transient inside one load())
+            def _set(self, value):
+                base_state.fset(self, value)
+                states.add(self._state)
+            state = property(base_state.fget, _set)
+        ld = recording_loader(path, historical=case['start'], basis=clk.t, factor=factor, lookahead=lookahead, duration=duration)
+        delivered = []          # (round, h, ts, values)
         rounds = 0
         h = case['start']
         steps = list(case['steps'])
